@@ -364,6 +364,9 @@ def bounded(ctx, env, real):
     if ctx.tier == "quick" and len(strings) > 120000:
         strings = [s for s in strings if len(s) <= 3] + rng.sample([s for s in strings if len(s) > 3], 80000)
     strings += ["1:2:3-4-5", "1.0-1", "0:1-", "1:-", "-1", "1:a-b:c", "1-a:b", "a" * 30 + "-1"]
+    # characters that Python's str methods (isdigit, isalnum, int(), lower ...) treat like ASCII ones but the Policy does not
+    exotic = ["\u0663", "\uff17", "\u00b2", "\u212a", "\u0131", "\u017f", "_", "\u00e9"]
+    strings += [a + b + c for a in ("", "1", "1:", "1.") for b in exotic for c in ("", "0", "-1", b)]
     valid_pool = []
     for s in strings:
         evals += 1
